@@ -9,6 +9,7 @@
 #include "nmtools/array/index/contains.hpp"
 #include "nmtools/array/index/normalize_axis.hpp"
 #include "nmtools/utility/unwrap.hpp"
+#include "nmtools/utility/has_value.hpp"
 
 // TODO: move to shape.hpp
 #ifdef NMTOOLS_ENABLE_BOOST
@@ -39,6 +40,9 @@ namespace nmtools::index
         auto new_shape = result_t{};
 
         if constexpr (!meta::is_constant_index_array_v<result_t>) {
+            // the axes are only known at run time: an axis outside [-n,n) or a repeated axis yields Nothing
+            using return_t = nmtools_maybe<result_t>;
+
             auto n_axes = [&](){
                 if constexpr (meta::is_index_array_v<axes_t>)
                     return len(axes);
@@ -47,8 +51,20 @@ namespace nmtools::index
             auto dim = len(shape);
             [[maybe_unused]] auto n = dim + n_axes;
 
-            // TODO: propagate error
-            auto normalized_axes = unwrap(normalize_axis(axes,n));
+            auto m_normalized_axes = normalize_axis(axes,n);
+            if (!has_value(m_normalized_axes)) {
+                return return_t{meta::Nothing};
+            }
+            auto normalized_axes = unwrap(m_normalized_axes);
+            if constexpr (meta::is_index_array_v<axes_t>) {
+                for (nm_size_t i=0; i<(nm_size_t)n_axes; i++) {
+                    for (nm_size_t j=i+1; j<(nm_size_t)n_axes; j++) {
+                        if ((nm_size_t)at(normalized_axes,i) == (nm_size_t)at(normalized_axes,j)) {
+                            return return_t{meta::Nothing};
+                        }
+                    }
+                }
+            }
 
             // resize output if necessary
             if constexpr (meta::is_resizable_v<result_t>) {
@@ -73,9 +89,11 @@ namespace nmtools::index
                     shape_expand_dims_impl(i);
                 }
             }
-        }
 
-        return new_shape;
+            return return_t{new_shape};
+        } else {
+            return new_shape;
+        }
     } // shape_expand_dims
 } // namespace nmtools::index
 
@@ -103,7 +121,7 @@ namespace nmtools
                 ) {
                     constexpr auto shape = to_value_v<shape_t>;
                     constexpr auto axes  = to_value_v<axes_t>;
-                    constexpr auto new_shape = index::shape_expand_dims(shape,axes);
+                    constexpr auto new_shape = unwrap(index::shape_expand_dims(shape,axes));
                     using nmtools::len, nmtools::at;
                     return template_reduce<len(new_shape)>([&](auto init, auto index){
                         using init_t = type_t<decltype(init)>;
